@@ -22,6 +22,8 @@ def run(ctx):
     ctx.rule("R19.b", "inspecting (Dynamic._inspect, Parameters.inspect_value) never produces a value", floor=2)
     ctx.rule("R19.c", "Dynamic._produce_value: with a time function and time_dependent, a new value is produced iff force or time != cached time, and then BOTH "
                       "_Dynamic_last and _Dynamic_time are written; otherwise the cached value is returned and nothing is written (exhaustive abstract cases)", floor=1)
+    ctx.rule("R19.e", "reading a generator never moves the clock: in numbergen every call that SETS the time (time_fn(<value>)) is made inside `with self.time_fn` (whose exit restores the "
+                      "saved time) or is followed on every exit by a call restoring a value that was read from the clock and not modified since", floor=1)
     ctx.rule("R19.d", "Time.__enter__ pushes exactly the tuple __exit__ unpacks; _state_push appends exactly the fields _state_pop pops, from the same per-generator stacks", floor=2)
     ctx.not_decided += ["numeric equality of the generated values (depends on the stdlib PRNG)"]
 
@@ -218,3 +220,64 @@ def run(ctx):
         ctx.ok("R19.d", ps, ps.node, "push/pop pairs: %s" % ", ".join("%s<->%s" % p for p in pushes))
     else:
         ctx.fail("R19.d", pp, pp.node, "_state_pop does not pop exactly what _state_push saved (push %s, pop %s)" % (pushes, pops), key="Parameters::state-push-pop")
+
+    # ---------------------------------------------------------------- R19.e
+    n_set = 0
+    for g in ctx.repo.all_funcs("numbergen"):
+        al = {}
+        for st in ast.walk(g.node):
+            if isinstance(st, ast.Assign) and len(st.targets) == 1 and isinstance(st.targets[0], ast.Name) and norm(st.value) == "self.time_fn":
+                al[st.targets[0].id] = "alias"
+            if isinstance(st, ast.With):
+                for i in st.items:
+                    if norm(i.context_expr) == "self.time_fn" and isinstance(i.optional_vars, ast.Name):
+                        al[i.optional_vars.id] = "with"
+
+        def is_clock(fn):
+            return norm(fn) == "self.time_fn" or (isinstance(fn, ast.Name) and fn.id in al)
+        sets = [c for c in ast.walk(g.node) if isinstance(c, ast.Call) and is_clock(c.func) and (c.args or c.keywords)]
+        if not sets:
+            continue
+        withs = [w for w in ast.walk(g.node) if isinstance(w, ast.With) and any(norm(i.context_expr) == "self.time_fn" for i in w.items)]
+        for c in sets:
+            n_set += 1
+            if any(c in list(ast.walk(w)) for w in withs):
+                ctx.ok("R19.e", g, c, "`%s` is inside `with self.time_fn`: the context's exit restores the saved time" % norm(c)[:60])
+                continue
+            gcfg = ctx.facts.cfg(g)
+            cn = [n for n in gcfg.live_nodes() if n.ast is not None and n.kind == "stmt" and any(x is c for x in ast.walk(n.ast))]
+            if not cn:
+                raise AnalysisError("cannot locate `%s` in the flow graph of %s" % (norm(c), g.qualname))
+
+            def pristine(name):
+                defs = [st for st in ast.walk(g.node) if isinstance(st, (ast.Assign, ast.AugAssign, ast.AnnAssign, ast.For, ast.With))
+                        and any(isinstance(t, ast.Name) and t.id == name and isinstance(t.ctx, ast.Store) for t in ast.walk(st) if not isinstance(t, ast.Call))]
+                return len(defs) == 1 and isinstance(defs[0], ast.Assign) and isinstance(defs[0].value, ast.Call) and is_clock(defs[0].value.func) and not defs[0].value.args
+
+            if len(c.args) == 1 and isinstance(c.args[0], ast.Name) and pristine(c.args[0].id):
+                ctx.ok("R19.e", g, c, "`%s` puts back a time value read from the clock and not modified since" % norm(c)[:60])
+                continue
+
+            def restores(n):
+                return n.ast is not None and n.kind == "stmt" and any(isinstance(k, ast.Call) and is_clock(k.func) and len(k.args) == 1 and isinstance(k.args[0], ast.Name)
+                                                                      and pristine(k.args[0].id) for k in ast.walk(n.ast)) and n is not cn[0]
+            # (if the setting call itself raises, the clock has not been moved)
+            seen, stack, leak = set(), [t for l, t in cn[0].succ if l != "e"], None
+            while stack and leak is None:
+                n = stack.pop()
+                if n.id in seen:
+                    continue
+                seen.add(n.id)
+                if restores(n):
+                    continue
+                if n is gcfg.exit or n is gcfg.excexit:
+                    leak = n
+                    break
+                stack.extend(t for l, t in n.succ)
+            if restores(cn[0]) or leak is None and any(restores(n) for n in gcfg.live_nodes()):
+                ctx.ok("R19.e", g, c, "`%s` is followed on every exit by a restore of the time that was read" % norm(c)[:60])
+            else:
+                ctx.fail("R19.e", g, c, "`%s` moves the clock outside `with self.time_fn`, and on the %s exit no call restores a time value that was read from the clock and left unmodified: "
+                                        "reading the generator leaves the clock somewhere else, so later reads see another time" % (norm(c)[:60], "exceptional" if leak is gcfg.excexit else "normal"),
+                         key="%s::clock-moved-by-read" % g.qualname, input="TimeSampledFn(offset=0.25, ...) on a Fraction clock: calling it changes time_fn()")
+    ctx.require(n_set >= 1, "no clock-setting call found in numbergen (TimeSampledFn.__call__ changed shape): anchor of R19.e vanished")
